@@ -1297,7 +1297,7 @@ class ScatterSum:
         return out
 
 
-INT_ARCHETYPES = ['const-mixed', 'const-pos', 'const-neg', 'const-uniform', 'range', 'inrange', 'normdim', 'sign', 'abs', 'arg']
+INT_ARCHETYPES = ['const-mixed', 'const-pos', 'const-neg', 'const-uniform', 'range', 'inrange', 'normdim', 'sign', 'abs', 'arg', 'sgnmul-l', 'sgnmul-r']
 INT_BINOPS = ['mod', 'floordiv', 'min', 'max', 'mul', 'add', 'sub', 'greater', 'equal']
 
 
@@ -1320,6 +1320,11 @@ def _int_operand(pool, arch, n):
         ii = Arg.gen(pool, want_kind='i', shape=(n,))
         pool.nodes[ii]['p']['range'] = [0, k] if arch == 'inrange' else [-k, k]
         return pool.view(pool.add('intops', [ii], dict(f=arch, n=k), (n,), 'i'))
+    if arch.startswith('sgnmul'):
+        # |x| spelled as a product with the Sign factor first / last (evaluable.abs only ever writes x * sign(x)); x of bounded or unbounded range
+        x = _int_operand(pool, str(rng.choice(['arg', 'normdim', 'const-mixed', 'range'])), n)
+        sg = pool.view(pool.add('unary', [x.i], dict(f='sign'), (n,), 'i'))
+        return pool.view(pool.add('binary', [sg.i, x.i] if arch == 'sgnmul-l' else [x.i, sg.i], dict(f='mul'), (n,), 'i'))
     a = pool.view(Arg.gen(pool, want_kind='i', shape=(n,)))
     if arch == 'arg':
         return a
